@@ -274,7 +274,15 @@ impl<L: Localize> OpeningHours<L> {
     /// assert_eq!(oh.state(date_2), RuleKind::Unknown);
     /// ```
     pub fn state(&self, current_time: L::DateTime) -> RuleKind {
-        self.iter_range(current_time.clone(), current_time + Duration::minutes(1))
+        // The one minute window is built on local time: one minute later in absolute time may be
+        // an earlier local time (eg. when clocks go back at the end of DST).
+        let naive_from = self.ctx.locale.naive(current_time);
+
+        let naive_to = naive_from
+            .checked_add_signed(Duration::minutes(1))
+            .unwrap_or(NaiveDateTime::MAX);
+
+        self.iter_range_naive(naive_from, naive_to)
             .next()
             .map(|dtr| dtr.kind)
             .unwrap_or(RuleKind::Closed)
